@@ -123,7 +123,7 @@ func structEdits(b *Built, f *refxz.File, r *sim.Rng) []structEdit {
 				}
 			}
 			// sizes with high bits set (overflow-style edits)
-			for _, hb := range []uint{32, 40, 62} {
+			for _, hb := range []uint{32, 40, 62, 63} {
 				add("block-header-compressed-size", fmt.Sprintf("%s declares %d+2^%d", btag, bl.CompSize, hb),
 					rebuildStream(s, f, si, rebuildHook{block: func(i int, sp *refxz.BlockSpec) {
 						if i == bi {
@@ -201,7 +201,8 @@ func structEdits(b *Built, f *refxz.File, r *sim.Rng) []structEdit {
 					refxz.Reseal(img, bhSpan)
 					add("filter-property-size", fmt.Sprintf("%s size %d", btag, sz), img)
 				}
-				for _, db := range []byte{41, 0x7f, 0xff} {
+				// out of range values, and the reserved bits 6 and 7 over a valid code
+				for _, db := range []byte{41, 0x7f, 0xff, 0x40 | s[fp+2], 0x80 | s[fp+2], 0xc0 | byte(r.Intn(40))} {
 					img := clone()
 					img[fp+2] = db
 					refxz.Reseal(img, bhSpan)
